@@ -134,12 +134,16 @@ struct Case {
     /// applications keep everything they hold until every program has finished (used together
     /// with a generator that closes no pending end, so that no claim is ever refused)
     barrier: bool,
+    /// per-mille probability that the tap disturbs a message on its way to the client (drop,
+    /// duplicate, re-deliver an old one, swap with the next).  Such a case is NOT judged by the
+    /// property oracle: it only produces sessions for the acceptance-automaton correspondence.
+    faults: u32,
     ops: Vec<(usize, Op)>, // (client, op) — per client in order
 }
 
 impl Case {
     fn text(&self) -> String {
-        let mut s = format!("n={} fifo={} sched={} spur={} barrier={} |", self.n, self.fifo, self.sched, self.spurious, self.barrier as u8);
+        let mut s = format!("n={} fifo={} sched={} spur={} barrier={} faults={} |", self.n, self.fifo, self.sched, self.spurious, self.barrier as u8, self.faults);
         for (c, o) in &self.ops {
             write!(s, " {}:{}", c, o.text()).unwrap();
         }
@@ -147,7 +151,7 @@ impl Case {
     }
     fn parse(line: &str) -> Option<Case> {
         let (head, body) = line.split_once('|')?;
-        let mut c = Case { n: 2, fifo: 0, sched: 1, spurious: 0, barrier: false, ops: vec![] };
+        let mut c = Case { n: 2, fifo: 0, sched: 1, spurious: 0, barrier: false, faults: 0, ops: vec![] };
         for kv in head.split_whitespace() {
             let (k, v) = kv.split_once('=')?;
             match k {
@@ -156,6 +160,7 @@ impl Case {
                 "sched" => c.sched = v.parse().ok()?,
                 "spur" => c.spurious = v.parse().ok()?,
                 "barrier" => c.barrier = v == "1",
+                "faults" => c.faults = v.parse().ok()?,
                 _ => return None,
             }
         }
@@ -345,7 +350,7 @@ fn gen_case(r: &mut Rng, len: usize, o: GenOpts) -> Case {
         let l = if r.below(5) == 0 { 1 + r.below(len as u64) as usize } else { len };
         gen_program(r, who, l, o, &mut ops);
     }
-    Case { n, fifo, sched: r.next() >> 1, spurious: if r.below(6) == 0 { 8 } else { 0 }, barrier: !o.failing_claims, ops }
+    Case { n, fifo, sched: r.next() >> 1, spurious: if r.below(6) == 0 { 8 } else { 0 }, barrier: !o.failing_claims, faults: 0, ops }
 }
 
 // ------------------------------------------------------------------------------------------
@@ -449,11 +454,24 @@ struct Tap {
     log: Option<Log>,
     epoch: u64,
     calls: u32,
+    /// fault injection on the receive path (per-mille, PRNG, messages to deliver first, history)
+    faults: u32,
+    rng: Rng,
+    pending: VecDeque<Message>,
+    held: Option<Message>,
+    history: Vec<Message>,
 }
 
 impl Tap {
     fn new(inner: Tx, log: Option<Log>) -> Tap {
-        Tap { inner, log, epoch: 0, calls: 0 }
+        Tap { inner, log, epoch: 0, calls: 0, faults: 0, rng: Rng::new(1), pending: VecDeque::new(), held: None, history: vec![] }
+    }
+
+    fn deliver(&mut self, m: Message) -> Poll<Result<Message, Disconnected>> {
+        if let Some(log) = &self.log {
+            log.borrow_mut().push((false, m.clone()));
+        }
+        Poll::Ready(Ok(m))
     }
 }
 
@@ -471,11 +489,52 @@ impl AsyncTransport for Tap {
             self.epoch = e;
             self.calls = 0;
         }
-        let r = Pin::new(&mut self.inner).receive_poll(cx);
-        if let (Poll::Ready(Ok(m)), Some(log)) = (&r, &self.log) {
-            log.borrow_mut().push((false, m.clone()));
+        if let Some(m) = self.pending.pop_front() {
+            return self.deliver(m);
         }
-        r
+        let r = Pin::new(&mut self.inner).receive_poll(cx);
+        match r {
+            Poll::Ready(Ok(m)) => {
+                if self.faults == 0 || matches!(m, Message::Shutdown(_)) || self.rng.below(1000) >= self.faults as u64 {
+                    if self.faults != 0 {
+                        self.history.push(m.clone());
+                        if let Some(h) = self.held.take() {
+                            self.pending.push_back(h); // the swapped message follows its successor
+                        }
+                    }
+                    return self.deliver(m);
+                }
+                self.history.push(m.clone());
+                match self.rng.below(4) {
+                    0 => {
+                        // drop: ask again (the waker is registered by the next poll)
+                        cx.waker().wake_by_ref();
+                        Poll::Pending
+                    }
+                    1 => {
+                        self.pending.push_back(m.clone()); // duplicate
+                        self.deliver(m)
+                    }
+                    2 => {
+                        // re-deliver an old message first
+                        let n = self.history.len() as u64;
+                        let i = self.rng.below(n) as usize;
+                        let old = self.history[i].clone();
+                        self.pending.push_back(m);
+                        self.deliver(old)
+                    }
+                    _ => {
+                        // swap with the next message
+                        if let Some(h) = self.held.replace(m) {
+                            return self.deliver(h);
+                        }
+                        cx.waker().wake_by_ref();
+                        Poll::Pending
+                    }
+                }
+            }
+            other => other,
+        }
     }
     fn send_poll_ready(mut self: Pin<&mut Self>, cx: &mut Context) -> Poll<Result<(), Disconnected>> {
         Pin::new(&mut self.inner).send_poll_ready(cx)
@@ -1329,6 +1388,9 @@ struct CaseResult {
     polls: u64,
     stats: BTreeMap<String, u64>,
     trace: Vec<Vec<(bool, Message)>>,
+    /// per client: `ok` (run() returned Ok), `rej` (UnexpectedMessageReceived), `pan <fn>`,
+    /// `err`, `none` (still running when the case ended)
+    verdicts: Vec<String>,
 }
 
 async fn setup(i: usize, t1: Tap, t2: Tap, mut bh: aldrin_broker::BrokerHandle, b: B, prog: Vec<Op>, barrier: Option<usize>) {
@@ -1410,7 +1472,9 @@ fn run_case(case: &Case) -> CaseResult {
             (Box::new(a), Box::new(c))
         };
         let prog: Vec<Op> = case.ops.iter().filter(|(w, _)| *w == i).map(|(_, o)| *o).collect();
-        let tap = Tap::new(t1, Some(logs[i].clone()));
+        let mut tap = Tap::new(t1, Some(logs[i].clone()));
+        tap.faults = case.faults;
+        tap.rng = Rng::new(case.sched ^ (0x9e37 + i as u64 * 7919));
         let t2 = Tap::new(t2, None);
         names.push(format!("setup{i}"));
         let barrier = if case.barrier { Some(case.n) } else { None };
@@ -1440,9 +1504,12 @@ fn run_case(case: &Case) -> CaseResult {
             })));
             flags.push(Arc::new(Flag(AtomicBool::new(true))));
         }
-        if let Some((class, detail)) = b.borrow().bad.first().cloned() {
-            fail = Some(Failure { class, detail });
-            break;
+        if case.faults == 0 {
+            // (a disturbed session is not judged by the oracle: let every client see its messages)
+            if let Some((class, detail)) = b.borrow().bad.first().cloned() {
+                fail = Some(Failure { class, detail });
+                break;
+            }
         }
         let live: Vec<usize> = (0..tasks.len()).filter(|i| tasks[*i].is_some()).collect();
         if live.is_empty() {
@@ -1528,7 +1595,28 @@ fn run_case(case: &Case) -> CaseResult {
     }
     let stats = b.borrow().stats.clone();
     let trace = logs.iter().map(|l| l.borrow().clone()).collect();
-    CaseResult { fail, polls, stats, trace }
+    let mut verdicts = vec!["none".to_string(); case.n];
+    for (i, s) in &b.borrow().run_results {
+        verdicts[*i] = if s == "Ok" {
+            "ok".into()
+        } else if s.starts_with("UnexpectedMessageReceived") {
+            "rej".into()
+        } else {
+            "err".into()
+        };
+    }
+    if let Some(f) = &fail {
+        if let Some(rest) = f.detail.strip_prefix("task client") {
+            if let (Some(i), Some(j)) = (rest.find(".run panicked in fn "), rest.find(" at ")) {
+                if let Ok(ci) = rest[..i].parse::<usize>() {
+                    if ci < verdicts.len() {
+                        verdicts[ci] = format!("pan {}", &rest[i + ".run panicked in fn ".len()..j]);
+                    }
+                }
+            }
+        }
+    }
+    CaseResult { fail, polls, stats, trace, verdicts }
 }
 
 fn run_case_caught(case: &Case) -> CaseResult {
@@ -1541,6 +1629,7 @@ fn run_case_caught(case: &Case) -> CaseResult {
                 polls: 0,
                 stats: BTreeMap::new(),
                 trace: vec![],
+                verdicts: vec![],
             }
         }
     }
@@ -1707,12 +1796,12 @@ fn fnv(s: &str) -> u64 {
     h
 }
 
-fn trace_text(trace: &[Vec<(bool, Message)>]) -> Vec<String> {
-    // one line per client: `T <client> <S|R> msg ; <S|R> msg ; ...` — uuids numbered per case
+fn trace_text(trace: &[Vec<(bool, Message)>], verdicts: &[String]) -> Vec<String> {
+    // one line per client: `T <client> V <verdict> ; <S|R> msg ; <S|R> msg ; ...` — uuids numbered per case
     let mut ids = Ids::default();
     let mut out = vec![];
     for (i, t) in trace.iter().enumerate() {
-        let mut s = format!("T {i}");
+        let mut s = format!("T {i} V {}", verdicts.get(i).map(String::as_str).unwrap_or("none"));
         for (sent, m) in t {
             write!(s, " ; {} {}", if *sent { "S" } else { "R" }, fmt_msg(m, &mut ids)).unwrap();
         }
@@ -1747,6 +1836,7 @@ struct Totals {
     distinct: HashSet<u64>,
     samples: Vec<String>,
     traced_msgs: u64,
+    fault_cases: u64,
     tags: BTreeMap<String, u64>,
 }
 
@@ -1762,6 +1852,7 @@ fn write_outputs(outdir: &str, cases: &[Case], results: Vec<CaseResult>, do_shri
         distinct: HashSet::new(),
         samples: vec![],
         traced_msgs: 0,
+        fault_cases: 0,
         tags: BTreeMap::new(),
     };
     let (mut cases_txt, mut impl_txt, mut mon_txt, mut trace_txt) = (String::new(), String::new(), String::new(), String::new());
@@ -1786,8 +1877,13 @@ fn write_outputs(outdir: &str, cases: &[Case], results: Vec<CaseResult>, do_shri
             t.samples.push(text.clone());
         }
         writeln!(cases_txt, "{text}").unwrap();
+        let fault = c.faults > 0;
+        if fault {
+            t.fault_cases += 1;
+        }
         match &r.fail {
             None => writeln!(impl_txt, "ok polls={}", r.polls).unwrap(),
+            Some(f) if fault => writeln!(impl_txt, "disturbed {} :: {}", f.class, f.detail.replace('\n', " ")).unwrap(),
             Some(f) => {
                 t.failures += 1;
                 writeln!(impl_txt, "FAIL {} :: {}", f.class, f.detail.replace('\n', " ")).unwrap();
@@ -1803,8 +1899,8 @@ fn write_outputs(outdir: &str, cases: &[Case], results: Vec<CaseResult>, do_shri
                 writeln!(mon_txt, "{}\t{}\t{}\t{}\t{}\t{}", sf.class, ci, sc.text(), sf.detail.replace(['\n', '\t'], " "), runs, tag).unwrap();
             }
         }
-        if want_trace && r.fail.is_none() {
-            for (k, l) in trace_text(&r.trace).into_iter().enumerate() {
+        if want_trace && (fault || r.fail.is_none()) {
+            for (k, l) in trace_text(&r.trace, &r.verdicts).into_iter().enumerate() {
                 t.traced_msgs += r.trace[k].len() as u64;
                 writeln!(trace_txt, "{ci} {l}").unwrap();
             }
@@ -1823,12 +1919,13 @@ fn write_outputs(outdir: &str, cases: &[Case], results: Vec<CaseResult>, do_shri
     };
     let samples: Vec<String> = t.samples.iter().map(|s| json_str(s)).collect();
     let stats = format!(
-        "{{\"cases\": {}, \"failures\": {}, \"polls\": {}, \"ops\": {}, \"traced_msgs\": {}, \"distinct_nontrivial\": {}, \"distinct_hashes\": [{}], \"by_transport\": {}, \"by_clients\": {}, \"result_classes\": {}, \"failure_tags\": {}, \"samples\": [{}]}}\n",
+        "{{\"cases\": {}, \"failures\": {}, \"polls\": {}, \"ops\": {}, \"traced_msgs\": {}, \"fault_cases\": {}, \"distinct_nontrivial\": {}, \"distinct_hashes\": [{}], \"by_transport\": {}, \"by_clients\": {}, \"result_classes\": {}, \"failure_tags\": {}, \"samples\": [{}]}}\n",
         t.cases,
         t.failures,
         t.polls,
         t.ops,
         t.traced_msgs,
+        t.fault_cases,
         t.distinct.len(),
         t.distinct.iter().map(|h| h.to_string()).collect::<Vec<_>>().join(","),
         map(&t.by_fifo),
@@ -1857,6 +1954,12 @@ fn main() {
                 shutdown_op: !flag("--no-shutdown-op"),
             };
             let mut cases: Vec<Case> = (0..n).map(|_| gen_case(&mut r, len, o)).collect();
+            if let Some(i) = args.iter().position(|a| a == "--faults") {
+                let f: u32 = args.get(i + 1).and_then(|x| x.parse().ok()).unwrap_or(20);
+                for c in cases.iter_mut() {
+                    c.faults = f;
+                }
+            }
             if !o.failing_claims {
                 // no claim is ever refused: pool entries are taken exactly once (generator), no
                 // pending end is closed while its peer may still be claimed, nobody shuts down
@@ -1901,7 +2004,7 @@ fn main() {
             write_outputs(&args[3], &cases, results, flag("--shrink"), flag("--trace"));
         }
         _ => {
-            eprintln!("usage: sched gen <outdir> <cases> <ops-per-client> [--no-failing-claims] [--no-cancel-claims] [--no-shutdown-op] [--no-shrink] [--trace]\n       sched run <case-file> <outdir> [reps] [--trace]");
+            eprintln!("usage: sched gen <outdir> <cases> <ops-per-client> [--no-failing-claims] [--no-cancel-claims] [--no-shutdown-op] [--no-shrink] [--trace] [--faults <per-mille>]\n       sched run <case-file> <outdir> [reps] [--trace]");
             std::process::exit(2);
         }
     }
